@@ -31,10 +31,11 @@ def gen_history(seed, tier, *, n_ops=(2, 6), genkw=None, allow=("run", "fail", "
     kw.update(genkw or {})
     world = worldgen.gen_world(rng, registry=True, p_unpack=0.0, scopes="plain", **kw)
     sc = worldgen.gen_sched(rng)
-    pure = [n["store"] for n in world["nodes"] if n["kind"] == "src" and not n.get("deps")
-            and n["store"] not in {m.get("writes") for m in world["nodes"]}]
+    derived = ref.derived_stores(world)
+    pure = [n["store"] for n in world["nodes"] if n["kind"] == "src" and not n.get("deps") and n["store"] not in derived]
     pure = [s for s in pure if not any(v == _owner(world, s) for _, v in world.get("late_deps", ()))]
-    deletable = [n["store"] for n in world["nodes"] if n.get("store") and n["store"] not in pure]
+    fed = {sd["feeds"] for sd in world["stores"].values() if sd.get("feeds")}
+    deletable = [n["store"] for n in world["nodes"] if n.get("store") and n["store"] not in pure and n["store"] not in fed]
     ops = []
     weights = dict(run=4, fail=2, cut=2, update=2, delete=2, fresh=1, intr=1)
     kinds = [k for k in allow for _ in range(weights[k])]
